@@ -313,13 +313,16 @@ func VerifC11FlushStep() {
 	}
 }
 
-// VerifC11FlushSum: end to end, up to F consecutive Flush calls after one
+// VerifC11FlushSum*: end to end, `calls` consecutive Flush calls after one
 // WriteMessage; the direct statement of "sum of counts = len(msg)".
-func VerifC11FlushSum() {
+func VerifC11FlushSum2() { c11FlushSum(4, 2) }
+func VerifC11FlushSum3() { c11FlushSum(7, 3) }
+func VerifC11FlushSum4() { c11FlushSum(7, 4) }
+
+func c11FlushSum(np, calls int) {
 	c11Config()
 	m, key, _, n := c11Sender()
-	p := vChoice("p", 7)
-	calls := 1 + vChoice("flushCalls", 4)
+	p := vChoice("p", np)
 	msg := vBytes("msg", p)
 	err := m.WriteMessage(msg)
 	vAssert(err == nil, "WriteMessage accepts a message when nothing is pending")
@@ -343,7 +346,7 @@ func VerifC11FlushSum() {
 		vReach("sum-complete")
 		vAssert(bytes.Equal(w.got, wire), "after a nil return the writer has received exactly header||body")
 		vAssert(sum == p, "sum of returned counts = payload length")
-		// the next message is accepted and uses the next two nonces
+		// the next message is accepted
 		e2 := m.WriteMessage(vBytes("msg2", 1))
 		vAssert(e2 == nil, "next message accepted after a complete flush")
 	} else {
@@ -352,15 +355,28 @@ func VerifC11FlushSum() {
 	}
 }
 
-// VerifC11WriteLimits: length limit of WriteMessage.
+// VerifC11WriteLimits: length limit of WriteMessage: 65536 bytes are refused
+// without side effect; 65535 bytes (first and last byte arbitrary, the rest
+// zero) are accepted, framed with length 0xffff and read back identical.
 func VerifC11WriteLimits() {
 	c11Config()
-	m, _, _, n := c11Sender()
+	m, key, salt, n := c11Sender()
 	big := make([]byte, 65536)
 	err := m.WriteMessage(big)
 	vAssert(err == ErrMaxMessageLengthExceeded, "WriteMessage refuses 65536 bytes")
 	vAssert(m.sendCipher.nonce == n && m.nextHeaderSend == nil && m.nextBodySend == nil, "a refused oversize message changes nothing")
 	vReach("oversize-refused")
+
+	max := big[:65535]
+	max[0], max[65534] = vU8("first"), vU8("last")
+	wire := c11Send(m, max)
+	hdr, body := c11Wire(key, n, max)
+	vAssert(len(wire) == encHeaderSize+65535+macSize && bytes.Equal(wire[:encHeaderSize], hdr) && bytes.Equal(wire[encHeaderSize:], body),
+		"65535-byte message: wire image = Seal(0xffff) || Seal(msg)")
+	r := c11Receiver(key, salt, n)
+	got, rerr := r.ReadMessage(&c11Reader{data: wire})
+	vAssert(rerr == nil && bytes.Equal(got, max), "65535-byte message is read back identical")
+	vReach("max-size-ok")
 }
 
 // ---------------------------------------------------------------- (3) read side
